@@ -7,8 +7,8 @@
      masked_ints.wrapper                                     -> c01_area_mask / c01_area_index / c01_index_*
      get_lonlats, get_lonlat, _invproj (Transformer route)   -> c01_lonlats / c01_get_lonlat   (oracle invT)
      colrow2lonlat, get_lonlat_from_*, get_projection_coordinates_from_lonlat,
-     get_array_coordinates_from_lonlat, get_array_indices_from_lonlat (Proj(self.crs) route)
-                                                             -> c01_colrow2lonlat ...          (oracles invP, fwdP)
+     get_array_coordinates_from_lonlat, get_array_indices_from_lonlat (_get_lonlat_transformer route;
+     Proj(self.crs) before fix 9e97bafd)                     -> c01_colrow2lonlat ...          (oracles invP, fwdP)
    The affine kernels themselves live in Model/Grid.v (shared).  PROJ is an oracle (a function argument),
    never an axiom.  Definitions only; proofs are in Proofs/C01_*.v. *)
 From Coq Require Import ZArith Bool List.
@@ -95,8 +95,8 @@ Section C01.
   (* ---- lon/lat accessors; PROJ enters only through the three oracle arguments ---- *)
   Section Oracles.
     Variable invT : T * T -> T * T.    (* Transformer(geodetic CRS without datum shift -> crs), INVERSE: get_lonlats, _invproj, Proj_MP *)
-    Variable invP : T * T -> T * T.    (* Proj(self.crs)(x, y, inverse=True) *)
-    Variable fwdP : T * T -> T * T.    (* Proj(self.crs)(lon, lat) *)
+    Variable invP : T * T -> T * T.    (* self._get_lonlat_transformer().transform(x, y, direction=INVERSE) *)
+    Variable fwdP : T * T -> T * T.    (* self._get_lonlat_transformer().transform(lon, lat) *)
 
     Definition c01_lonlats (a : area T) (rows cols : list Z) : list (list (T * T)) := map (map invT) (c01_coords_numpy a rows cols).
     Definition c01_lonlats_dask (a : area T) (rch cch rows cols : list Z) : list (list (T * T)) :=
